@@ -236,6 +236,12 @@ func (r *Run) runShard(i, n int, asLimit uint64, trace bool, extra []string) (do
 				r.Transitions(m.N)
 			case "traces":
 				r.Traces(m.N)
+			case "replay_diverged":
+				// executions of the schedule explorer that could not reproduce their recorded prefix: the code
+				// under test keeps state across executions outside the harness' control; exploration incomplete
+				if m.N > 0 {
+					r.Cap(fmt.Sprintf("%d executions did not reproduce the prefix they replay (state kept by the code under test across executions): exploration incomplete", m.N))
+				}
 			default:
 				r.AddTo(m.Key, m.N)
 			}
